@@ -388,3 +388,212 @@ Proof.
   - destruct R as [e' [F (Hd' & Hc' & _)]]. exists e'. split; [exact F|]. split; assumption.
   - exact R.
 Qed.
+
+(** * cut_straight *)
+Definition sim_str (cut : option Q) (n : nat) (D : dendrogram) (st : cstate) (e : env) : Prop :=
+  e "dendrogram" = Some (embD D) /\ e "cluster" = Some (embC st) /\ e "n" = Some (vnat n) /\
+  e "cut" = Some (embCut cut).
+
+Lemma cmp_below_cut h cut r : h = r_height r -> cmp_vals CLt (VNum h) (embCut cut) = POk (VBool (below_cut cut r)).
+Proof. intros ->. destruct cut; reflexivity. Qed.
+
+Lemma str_step cut n D t r st e :
+  nth_error D t = Some r -> sim_str cut n D st e -> keys_lt (n + t) st ->
+  match cut_step (straight_guard cut) (n + t) r st with
+  | Ok st' => exists e', exec (loop_body src_cut_straight_core) (upd "t" (VInt (Z.of_nat t)) e) = POk e' /\ sim_str cut n D st' e'
+  | Err er => exec (loop_body src_cut_straight_core) (upd "t" (VInt (Z.of_nat t)) e) = PErr (conv er)
+  end.
+Proof.
+  intros Hr (Hd & Hc & Hn & Hcut) Hk.
+  let b := eval vm_compute in (loop_body src_cut_straight_core) in change (loop_body src_cut_straight_core) with b.
+  unfold cut_step, straight_guard. evx. rewrite (cmp_below_cut _ cut r eq_refl). evx.
+  destruct (below_cut cut r) eqn:Eg; evx.
+  2:{ destruct (alookup (r_left r) st), (alookup (r_right r) st); eexists; (split; [reflexivity|]); unfold sim_str; simok. }
+  destruct (alookup (r_left r) st) as [ci|] eqn:Ei; evx.
+  2:{ eexists. split; [reflexivity|]. unfold sim_str. simok. }
+  destruct (alookup (r_right r) st) as [cj|] eqn:Ej; evx.
+  2:{ eexists. split; [reflexivity|]. unfold sim_str. simok. }
+  destruct (alookup (r_right r) (aremove (r_left r) st)) as [cj'|] eqn:Ej'; evx.
+  2:{ reflexivity. }
+  rewrite dset_embL_fresh'.
+  2:{ apply keys_lt_fresh. apply keys_lt_aremove. apply keys_lt_aremove. exact Hk. }
+  eexists. split; [reflexivity|]. unfold sim_str. simok.
+Qed.
+
+Definition straight_core_model (D : dendrogram) (nc : option nat) (th : option Q) : result cstate :=
+  let n := S (Datatypes.length D) in
+  match cut_height D nc th with
+  | Err e => Err e
+  | Ok cut => replay (straight_guard cut) n D (init_clusters n)
+  end.
+
+Lemma list_index_none (l : list val) t : nth_error l t = None -> list_index l (Z.of_nat t) = PErr PIndexError.
+Proof.
+  intros H. unfold list_index.
+  assert (Hlt : (Z.of_nat t <? 0)%Z = false) by (apply Z.ltb_ge; lia).
+  rewrite Hlt, Hlt, Nat2Z.id, H. reflexivity.
+Qed.
+
+Lemma sorted_index D n k : n = S (Datatypes.length D) -> (k <= n \/ D = []) ->
+  list_index (map VNum (sortq (heights D))) (Z.of_nat n - Z.of_nat k) =
+  match nth_error (sortq (heights D)) (n - k) with Some c => POk (VNum c) | None => PErr PIndexError end.
+Proof.
+  intros Hn [Hk|HD].
+  - replace (Z.of_nat n - Z.of_nat k)%Z with (Z.of_nat (n - k)) by lia.
+    destruct (nth_error (sortq (heights D)) (n - k)) as [c|] eqn:E.
+    + apply list_index_nat. rewrite nth_error_map, E. reflexivity.
+    + apply list_index_none. rewrite nth_error_map, E. reflexivity.
+  - subst D. cbn [heights map sortq fold_right].
+    replace (nth_error [] (n - k)) with (@None Q) by (destruct (n - k); reflexivity).
+    unfold list_index. cbn [Datatypes.length map].
+    destruct (Z.of_nat n - Z.of_nat k <? 0)%Z; [|destruct (_ <? 0)%Z; [reflexivity|]].
+    + destruct (_ <? 0)%Z; [reflexivity|]. destruct (Z.to_nat _); reflexivity.
+    + destruct (Z.to_nat _); reflexivity.
+Qed.
+
+Lemma max_cut c t : max_vals (VNum c) (VNum t) = POk (VNum (qmax c t)).
+Proof. unfold max_vals, qmax. cbn [as_num]. destruct (Qle_bool c t); reflexivity. Qed.
+
+Fixpoint drop_stmts (k : nat) (s : stmt) : stmt :=
+  match k, s with S k', SSeq _ b => drop_stmts k' b | _, _ => s end.
+
+(** the loop of the core, from the initial dict *)
+Lemma straight_loop D cut (e : env) :
+  let n := S (Datatypes.length D) in
+  sim_str cut n D (init_clusters n) e ->
+  match replay (straight_guard cut) n D (init_clusters n) with
+  | Ok st => exists e', exec (last_stmt src_cut_straight_core) e = POk e' /\ e' "cluster" = Some (embC st) /\
+                        e' "dendrogram" = Some (embD D)
+  | Err er => exec (last_stmt src_cut_straight_core) e = PErr (conv er)
+  end.
+Proof.
+  intros n Hsim.
+  assert (Hk : keys_lt (n + 0) (init_clusters n)) by (rewrite Nat.add_0_r; apply init_keys_lt).
+  pose proof (for_range_replay (straight_guard cut) n D (sim_str cut n D)
+                (fun i e' => exec (loop_body src_cut_straight_core) (upd "t" (VInt i) e'))
+                (fun t r st e => str_step cut n D t r st e) D 0 (init_clusters n) e eq_refl Hsim Hk) as R.
+  rewrite Nat.add_0_r in R.
+  let b := eval vm_compute in (last_stmt src_cut_straight_core) in change (last_stmt src_cut_straight_core) with b.
+  assert (Hloop : forall body, exec (SForRange "t" (EBin BSub (EVar "n") (EInt 1)) body) e =
+                  for_range (fun i e' => exec body (upd "t" (VInt i) e')) (Datatypes.length D) 0%Z e).
+  { intros body. destruct Hsim as (_ & _ & Hn2 & _). evx. rewrite sub_int. evx.
+    replace (Z.to_nat (Z.of_nat n - 1)) with (Datatypes.length D) by (unfold n; lia). reflexivity. }
+  rewrite Hloop. clear Hloop.
+  destruct (replay (straight_guard cut) n D (init_clusters n)) as [st|er].
+  - destruct R as [e' [F (Hd' & Hc' & _)]]. exists e'. split; [exact F|]. split; assumption.
+  - exact R.
+Qed.
+
+Definition cut_of (D : dendrogram) (k : nat) (th : option Q) : result (option Q) :=
+  if Nat.eqb k 1 then Ok None
+  else match nth_error (sortq (heights D)) (S (Datatypes.length D) - k) with
+       | None => Err IndexError
+       | Some c => Ok (Some (match th with None => c | Some t => qmax c t end))
+       end.
+
+Lemma straight_tail D k th (e : env) :
+  let n := S (Datatypes.length D) in
+  e "dendrogram" = Some (embD D) -> e "n" = Some (vnat n) -> e "n_clusters" = Some (vnat k) ->
+  e "threshold" = Some (embOQ th) -> e "cluster" = Some (embC (init_clusters n)) ->
+  (k <= n \/ D = []) ->
+  match cut_of D k th with
+  | Err er => exec (drop_stmts 2 src_cut_straight_core) e = PErr (conv er)
+  | Ok cut =>
+      match replay (straight_guard cut) n D (init_clusters n) with
+      | Ok st => exists e', exec (drop_stmts 2 src_cut_straight_core) e = POk e' /\ e' "cluster" = Some (embC st) /\
+                            e' "dendrogram" = Some (embD D)
+      | Err er => exec (drop_stmts 2 src_cut_straight_core) e = PErr (conv er)
+      end
+  end.
+Proof.
+  intros n Hd Hn Hk Hth Hc Hkn.
+  pose proof (straight_loop D) as L. cbv zeta in L. fold n in L.
+  let b := eval vm_compute in (last_stmt src_cut_straight_core) in change (last_stmt src_cut_straight_core) with b in L.
+  let b := eval vm_compute in (drop_stmts 2 src_cut_straight_core) in change (drop_stmts 2 src_cut_straight_core) with b.
+  unfold cut_of. fold n.
+  destruct (Nat.eqb k 1) eqn:E1.
+  - (* cut = inf *)
+    erewrite exec_seq_ok.
+    2:{ evx. change 1%Z with (Z.of_nat 1). rewrite cmp_eq_nat', E1. evx. reflexivity. }
+    destruct th as [t|]; cbn [embOQ] in Hth.
+    + erewrite exec_seq_ok.
+      2:{ evx. cbn [negb max_vals as_num]. evx. reflexivity. }
+      apply L. unfold sim_str. simok.
+    + erewrite exec_seq_ok.
+      2:{ evx. cbn [negb]. evx. reflexivity. }
+      apply L. unfold sim_str. simok.
+  - destruct (nth_error (sortq (heights D)) (n - k)) as [c|] eqn:Ec.
+    + erewrite exec_seq_ok.
+      2:{ evx. change 1%Z with (Z.of_nat 1). rewrite cmp_eq_nat', E1. evx. unfold embD. evx.
+          rewrite column2_embD, psort_sortq. evx. rewrite sub_int.
+          rewrite (sorted_index D n k eq_refl Hkn), Ec. reflexivity. }
+      destruct th as [t|]; cbn [embOQ] in Hth.
+      * erewrite exec_seq_ok.
+        2:{ evx. cbn [negb]. evx. rewrite max_cut. reflexivity. }
+        apply (L (Some (qmax c t))). unfold sim_str. simok.
+      * erewrite exec_seq_ok.
+        2:{ evx. cbn [negb]. evx. reflexivity. }
+        apply (L (Some c)). unfold sim_str. simok.
+    + erewrite exec_seq_err; [reflexivity|].
+      evx. change 1%Z with (Z.of_nat 1). rewrite cmp_eq_nat', E1. evx. unfold embD. evx.
+      rewrite column2_embD, psort_sortq. evx. rewrite sub_int.
+      rewrite (sorted_index D n k eq_refl Hkn), Ec. reflexivity.
+Qed.
+
+Lemma cut_height_cut_of D nc th :
+  cut_height D nc th =
+  match resolve_n_clusters (S (Datatypes.length D)) nc th with Err e => Err e | Ok k => cut_of D k th end.
+Proof. reflexivity. Qed.
+
+Theorem src_cut_straight_core_is_model D nc th (e0 : env) :
+  let n := S (Datatypes.length D) in
+  e0 "dendrogram" = Some (embD D) -> e0 "n" = Some (vnat n) ->
+  e0 "n_clusters" = Some (embON nc) -> e0 "threshold" = Some (embOQ th) ->
+  match straight_core_model D nc th with
+  | Ok st => exists e', exec src_cut_straight_core e0 = POk e' /\ e' "cluster" = Some (embC st) /\
+                        e' "dendrogram" = Some (embD D)
+  | Err er => exec src_cut_straight_core e0 = PErr (conv er)
+  end.
+Proof.
+  intros n Hd Hn Hnc Hth. unfold straight_core_model. rewrite cut_height_cut_of. fold n.
+  unfold src_cut_straight_core.
+  erewrite exec_seq_ok.
+  2:{ cbn [exec]. rewrite (dict_range_init "i" e0 n Hn). reflexivity. }
+  set (e1 := upd "cluster" (embC (init_clusters n)) e0).
+  assert (Hd1 : e1 "dendrogram" = Some (embD D)) by (unfold e1; simok).
+  assert (Hn1 : e1 "n" = Some (vnat n)) by (unfold e1; simok).
+  assert (Hnc1 : e1 "n_clusters" = Some (embON nc)) by (unfold e1; simok).
+  assert (Hth1 : e1 "threshold" = Some (embOQ th)) by (unfold e1; simok).
+  assert (Hc1 : e1 "cluster" = Some (embC (init_clusters n))) by (unfold e1; simok).
+  clearbody e1. clear Hd Hn Hnc Hth.
+  pose proof (straight_tail D) as T. cbv zeta in T. fold n in T.
+  let b := eval vm_compute in (drop_stmts 2 src_cut_straight_core) in change (drop_stmts 2 src_cut_straight_core) with b in T.
+  destruct nc as [k|]; cbn [embON resolve_n_clusters] in *.
+  - (* n_clusters given: the inlined check_n_clusters *)
+    unfold check_n_clusters.
+    destruct (Nat.ltb n k) eqn:E1.
+    { erewrite exec_seq_err; [reflexivity|]. evx. rewrite cmp_gt_nat', E1. evx. reflexivity. }
+    destruct (Nat.ltb k 1) eqn:E2.
+    { erewrite exec_seq_err; [reflexivity|]. evx. rewrite cmp_gt_nat', E1. evx.
+      change 1%Z with (Z.of_nat 1). rewrite cmp_lt_nat', E2. evx. reflexivity. }
+    erewrite exec_seq_ok.
+    2:{ evx. rewrite cmp_gt_nat', E1. evx. change 1%Z with (Z.of_nat 1). rewrite cmp_lt_nat', E2. evx. reflexivity. }
+    cbv iota.
+    match goal with |- context [exec _ ?e2] =>
+      assert (T' := T k th e2 ltac:(simok) ltac:(simok) ltac:(simok) ltac:(simok) ltac:(simok)
+                      (or_introl (proj1 (Nat.ltb_ge n k) E1))) end.
+    destruct (cut_of D k th); exact T'.
+  - destruct th as [t|]; cbn [embOQ] in Hth1.
+    + erewrite exec_seq_ok.
+      2:{ evx. reflexivity. }
+      match goal with |- context [exec _ ?e2] =>
+        assert (T' := T n (Some t) e2 ltac:(simok) ltac:(simok) ltac:(simok) ltac:(simok) ltac:(simok)
+                        (or_introl (le_n n))) end.
+      destruct (cut_of D n (Some t)); exact T'.
+    + erewrite exec_seq_ok.
+      2:{ evx. reflexivity. }
+      assert (H2 : 2 <= n \/ D = []) by (destruct D as [|r D']; [right; reflexivity | left; unfold n; simpl; lia]).
+      match goal with |- context [exec _ ?e2] =>
+        assert (T' := T 2 None e2 ltac:(simok) ltac:(simok) ltac:(simok) ltac:(simok) ltac:(simok) H2) end.
+      destruct (cut_of D 2 None); exact T'.
+Qed.
